@@ -29,6 +29,14 @@ pub enum Case {
         /// 0: n_max = 100; k>0: n_max = k-1 (exhaustion class)
         cap: u8,
         singular: bool,
+        /// 0: strictly diagonally dominant; 1: diag(|a_ii|) times a product of plane rotations by angles pi a_12,
+        /// pi a_23, pi a_34 (perfectly conditioned up to the diagonal, but far from symmetric)
+        #[serde(default)]
+        shape: u8,
+        /// complex-valued system of dimension 1-2 (entries, root and start get imaginary parts from the unused
+        /// entries of `a`); convergent class only
+        #[serde(default)]
+        complex: bool,
     },
     NewtonPoly {
         complex_field: bool,
@@ -90,9 +98,10 @@ fn run_sys<const S: usize>(case: &Case, mut o: Obs) -> Outcome
 where
     nalgebra::Const<S>: nalgebra::DimMin<nalgebra::Const<S>, Output = nalgebra::Const<S>>,
 {
-    let Case::Sys { method, a, scale, r, delta, eta, start, tol, h, cap, singular, .. } = case else { unreachable!() };
+    let Case::Sys { method, a, scale, r, delta, eta, start, tol, h, cap, singular, shape, .. } = case else { unreachable!() };
     let (method, scale, start, tol, h, cap, singular) = (*method, *scale, *start, *tol, *h, *cap, *singular && S >= 2);
     let mut am = [[0.0f64; S]; S];
+    let rotated = *shape == 1 && !singular && S >= 2;
     for i in 0..S {
         for j in 0..S {
             // strictly diagonally dominant by construction: |diag| in [1,3], |offdiag| <= 0.25
@@ -103,6 +112,28 @@ where
             } else {
                 a[i * 4 + j] * (0.25 / 3.0) * scale
             };
+        }
+    }
+    if rotated {
+        o.label("rotation-shaped-jacobian");
+        // Q = product of plane rotations (k, k+1) by pi a[k][k+1]; A = scale diag(|a_kk|) Q
+        let mut q = [[0.0f64; S]; S];
+        for (i, row) in q.iter_mut().enumerate() {
+            row[i] = 1.0;
+        }
+        for k in 0..S - 1 {
+            let th = std::f64::consts::PI * a[k * 4 + k + 1] / 3.0;
+            let (c, sn) = (th.cos(), th.sin());
+            for row in q.iter_mut() {
+                let (u, v) = (row[k], row[k + 1]);
+                row[k] = c * u - sn * v;
+                row[k + 1] = sn * u + c * v;
+            }
+        }
+        for i in 0..S {
+            for j in 0..S {
+                am[i][j] = a[i * 4 + i].abs() * scale * q[i][j];
+            }
         }
     }
     if singular {
@@ -266,6 +297,111 @@ where
     }
 }
 
+/// complex-valued systems (dimension 1-2): F(z) = A (z - r) + eta N(z - r) with the same N, holomorphic
+fn run_sys_complex<const S: usize>(case: &Case, mut o: Obs) -> Outcome
+where
+    nalgebra::Const<S>: nalgebra::DimMin<nalgebra::Const<S>, Output = nalgebra::Const<S>>,
+{
+    let Case::Sys { method, a, scale, r, delta, eta, start, tol, h, .. } = case else { unreachable!() };
+    let (method, scale, start, tol, h) = (*method, *scale, *start, *tol, *h);
+    o.label("complex-system");
+    o.label(if method == 0 { "newton" } else { "secant" });
+    o.label(format!("dim{S}"));
+    // entries: diagonal of modulus in [1,3] with phase pi a[i][3-i]/3, off-diagonal (a[i][j] + i a[j][i]) / 12
+    let am: Vec<Vec<C64>> = (0..S)
+        .map(|i| {
+            (0..S)
+                .map(|j| {
+                    if i == j {
+                        C64::from_polar(a[i * 4 + i].abs() * scale, std::f64::consts::PI * a[i * 4 + 3 - i] / 3.0)
+                    } else {
+                        c(a[i * 4 + j], a[j * 4 + i]) * (0.25 / 3.0) * scale
+                    }
+                })
+                .collect()
+        })
+        .collect();
+    let rv: Vec<C64> = (0..S).map(|i| c(r[i], r[(i + 2) % 4] * 0.5)).collect();
+    let dlt: Vec<C64> = (0..S).map(|i| c(delta[i], delta[(i + 2) % 4])).collect();
+    let dn = dlt.iter().map(|z| z.norm()).fold(0.0, f64::max);
+    let adm = DMatrix::<C64>::from_fn(S, S, |i, j| am[i][j]);
+    let Some(inv) = adm.clone().try_inverse() else { return o.discard("matrix unexpectedly singular") };
+    let (kappa, beta) = (adm.norm() * inv.norm(), inv.norm());
+    let affine = start == 2;
+    let eta_eff = if affine { 0.0 } else { eta.min(0.1 / (beta * 6.0 * S as f64 * dn.max(1e-3))) };
+    let x0: Vec<C64> = match start {
+        0 => (0..S).map(|i| rv[i] + dlt[i]).collect(),
+        1 => rv.clone(),
+        _ => vec![c(0.0, 0.0); S],
+    };
+    let n_max = 100usize;
+    let calls = Cell::new(0usize);
+    let call_budget = (n_max + 3) * (2 * S + 3) + 8;
+    let nl = |d: &[C64], i: usize| -> C64 { d[(i + 1) % S].sin() * d[i] + d[(i + 2) % S] * d[(i + 2) % S] };
+    let f = |x: &[C64]| -> SVector<C64, S> {
+        calls.set(calls.get() + 1);
+        if calls.get() > call_budget {
+            budget_exceeded("system function calls");
+        }
+        let d: Vec<C64> = (0..S).map(|i| x[i] - rv[i]).collect();
+        SVector::<C64, S>::from_fn(|i, _| {
+            let mut v = c(0.0, 0.0);
+            for j in 0..S {
+                v += am[i][j] * d[j];
+            }
+            v + nl(&d, i) * eta_eff
+        })
+    };
+    let jac = |x: &[C64]| -> SMatrix<C64, S, S> {
+        calls.set(calls.get() + 1);
+        if calls.get() > call_budget {
+            budget_exceeded("jacobian calls");
+        }
+        let d: Vec<C64> = (0..S).map(|i| x[i] - rv[i]).collect();
+        SMatrix::<C64, S, S>::from_fn(|i, j| {
+            let mut v = c(0.0, 0.0);
+            if j == i {
+                v += d[(i + 1) % S].sin();
+            }
+            if j == (i + 1) % S {
+                v += d[(i + 1) % S].cos() * d[i];
+            }
+            if j == (i + 2) % S {
+                v += d[(i + 2) % S] * 2.0;
+            }
+            am[i][j] + v * eta_eff
+        })
+    };
+    let res = guard(|| if method == 0 { newton::<C64, _, _, S>(&x0, f, jac, tol, n_max) } else { secant::<C64, _, S>(&x0, f, h, tol, n_max) });
+    o.set("calls", calls.get());
+    let res = match res {
+        Ok(r) => r,
+        Err(Caught::Budget(w)) => return o.fail(format!("complex system: loops beyond its iteration cap: more than {call_budget} {w}")),
+        Err(Caught::Panic(m)) => return o.fail(format!("complex system: panicked: {m}")),
+    };
+    let rnorm = rv.iter().map(|z| z.norm_sqr()).sum::<f64>().sqrt();
+    let bound = 2.0 * tol + 256.0 * EPS * kappa * (1.0 + rnorm);
+    o.nontrivial = true;
+    if affine {
+        o.label("affine");
+    }
+    match res {
+        Err(e) => o.fail(format!("complex system, convergent class, returned Err({e})")),
+        Ok(x) => {
+            if !x.iter().all(|v| v.re.is_finite() && v.im.is_finite()) {
+                return o.fail("Ok result contains NaN or infinity");
+            }
+            let e = (0..S).map(|i| (x[i] - rv[i]).norm_sqr()).sum::<f64>().sqrt();
+            o.set("ratio_err_complex", e / bound);
+            if e <= bound {
+                o.pass()
+            } else {
+                o.fail(format!("complex system: returned a point {e:e} from the root; allowed 2 tol + floor = {bound:e}"))
+            }
+        }
+    }
+}
+
 // --------------------------------------------------------------------------------------------
 // polynomials
 
@@ -396,6 +532,9 @@ fn run_muller(case: &Case, mut o: Obs) -> Outcome {
         guard(|| muller_polynomial((pts[0], pts[1], pts[2]), &p, *tol, 100))
     };
     o.label(if *near { "muller-near" } else { "muller-generic" });
+    // real starting points next to the real part of a complex root are not "near the root": only the near class
+    // around a root reachable from the given field is judged, the rest is sanity-checked
+    let judged = *near && (!use_real || z.im == 0.0);
     o.nontrivial = n >= 2;
     match res {
         Err(Caught::Panic(m)) => o.fail(format!("panicked: {m}")),
@@ -403,7 +542,7 @@ fn run_muller(case: &Case, mut o: Obs) -> Outcome {
         Ok(Err(e)) => {
             // real-field triples near a complex root cannot be expected to converge quickly; only the
             // near class around a root reachable from the given field is required to succeed
-            if *near && (!use_real || z.im == 0.0) {
+            if judged {
                 o.fail(format!("three points within 0.1 of the separation from a simple root returned Err({e})"))
             } else {
                 o.label("muller-err");
@@ -425,9 +564,9 @@ fn run_muller(case: &Case, mut o: Obs) -> Outcome {
             let bound = 2.0 * tol + root_floor(&cf, rs, bi);
             if best <= bound {
                 // only the judged (near) class contributes to the margin statistics
-                o.set(if *near { "ratio_err" } else { "wide_err_over_bound" }, best / bound);
+                o.set(if judged { "ratio_err" } else { "wide_err_over_bound" }, best / bound);
                 o.pass()
-            } else if !*near {
+            } else if !judged {
                 // Wide triples: the stopping rule (two consecutive iterates within tol) is a heuristic
                 // that can fire by coincidence far from the convergent regime (observed about once per
                 // 1e3 wide triples at tol ~ 1e-3); such starts are outside "started near a root", so
@@ -595,6 +734,10 @@ fn run_steff(case: &Case, mut o: Obs) -> Outcome {
 pub fn run_case(case: &Case) -> Outcome {
     let o = Obs::new();
     match case {
+        Case::Sys { dim, complex: true, .. } => match dim {
+            1 => run_sys_complex::<1>(case, o),
+            _ => run_sys_complex::<2>(case, o),
+        },
         Case::Sys { dim, .. } => match dim {
             1 => run_sys::<1>(case, o),
             2 => run_sys::<2>(case, o),
@@ -628,15 +771,17 @@ fn strategy(_t: Tier) -> BoxedStrategy<Case> {
             gen::logu(-2.0, 0.5),
             prop_oneof![6 => Just(0u8), 1 => Just(1u8), 1 => Just(2u8)],
         ),
-        (gen::logu(-10.0, -3.0), gen::logu(-4.0, -1.0), prop_oneof![10 => Just(0u8), 1 => 1u8..=3], prop_oneof![12 => Just(false), 1 => Just(true)]),
+        (gen::logu(-10.0, -3.0), gen::logu(-4.0, -1.0), prop_oneof![10 => Just(0u8), 1 => 1u8..=3], prop_oneof![12 => Just(false), 1 => Just(true)], prop_oneof![4 => Just((0u8, false)), 2 => Just((1u8, false)), 1 => Just((0u8, true))]),
     )
-        .prop_map(|((dim, method, mut a, scale), (r, delta, eta, start), (tol, h, cap, singular))| {
+        .prop_map(|((dim, method, mut a, scale), (r, delta, eta, start), (tol, h, cap, singular, (shape, complex)))| {
             // diagonal entries of magnitude in [1,3]
             for i in 0..4 {
                 let v: f64 = a[i * 4 + i];
                 a[i * 4 + i] = if v >= 0.0 { 1.0 + v * 2.0 / 3.0 } else { -1.0 + v * 2.0 / 3.0 };
             }
-            Case::Sys { dim, method, a, scale, r, delta, eta, start, tol, h, cap, singular }
+            // the complex class: dimension 1-2, convergent class only
+            let (dim, cap, singular) = if complex { (1 + dim % 2, 0, false) } else { (dim, cap, singular) };
+            Case::Sys { dim, method, a, scale, r, delta, eta, start, tol, h, cap, singular, shape, complex }
         });
     let npoly = (any::<bool>(), prop_oneof![real_roots_only(1, 8), real_rootset(1, 8), complex_rootset(1, 8)], 0usize..8, prop_oneof![1 => Just(0.0), 6 => gen::fl(0.0, 1.0)], gen::fl(0.0, 6.2831), gen::logu(-10.0, -3.0), scale_exp())
         .prop_map(|(complex_field, rs, target, rho, angle, tol, scale_exp)| Case::NewtonPoly { complex_field, rs, target, rho, angle, tol, scale_exp });
@@ -658,7 +803,7 @@ pub fn run(opts: &Opts) -> i32 {
                 for i in 0..4 {
                     a[i * 4 + i] = 2.0;
                 }
-                spec.enumerated.push(Case::Sys { dim, method, a, scale: 1.0, r: vec![1.0, -2.0, 0.5, 3.0], delta: vec![0.1, -0.2, 0.05, 0.1], eta: 0.5, start, tol: 1e-8, h: 1e-2, cap: 0, singular: false });
+                spec.enumerated.push(Case::Sys { dim, method, a, scale: 1.0, r: vec![1.0, -2.0, 0.5, 3.0], delta: vec![0.1, -0.2, 0.05, 0.1], eta: 0.5, start, tol: 1e-8, h: 1e-2, cap: 0, singular: false, shape: 0, complex: false });
             }
         }
     }
@@ -686,8 +831,10 @@ pub fn run(opts: &Opts) -> i32 {
         ("steffensen-slow-contraction", 0.01),
         ("poly-scaled-small", 0.02),
         ("dim4", 0.05),
+        ("rotation-shaped-jacobian", 0.05),
+        ("complex-system", 0.03),
     ];
-    spec.rule = "generated: (a) systems F(x)=A(x-r)+eta*N(x-r) of dimension 1-4, A strictly diagonally dominant (|diag| in [1,3], |offdiag| <= 0.25) times 10^[-1,1], N_i(d)=sin(d_{i+1})d_i+d_{i+2}^2, eta capped so that beta*gamma*|delta|<=0.1, roots in [-3,3]^S, at the origin, or far (|r_i|<=100), starts r+delta (|delta_i|<=0.3), exactly r, or the origin (affine), tol 10^[-10,-3], FD width 10^[-4,-1], n_max=100 or exhaustion caps 0..2, singular class with duplicate integer rows; Newton and secant. (b) polynomials of degree 1-8 expanded from separated roots (grid construction, separation >= 0.3, |z|<=3), Newton starts within 0.8 d/(2n-1) of a chosen root in real and complex arithmetic, Muller triples within 0.1 d (must converge) or 1.5 (may fail), incl. vertical triples. all coefficients optionally multiplied by 10^[-8,4] (roots unchanged). (c) Steffensen on six contractions r and their under-relaxations k x+(1-k) r(x), k in [0,0.97] (same fixed point, slope up to ~0.98), with tolerances 10^[-14,-3]. Oracle: Ok within 2 tol + rounding floor of the root (nearest root for Muller; |g(x)-x| <= 10 tol and distance to the fixed point <= 3 tol + 64 eps|x|/(1-slope)^2 for Steffensen; relaxed maps get tol >= 1e3 eps|x|/(1-slope)^2), Err on singular/exhausted input (or an Ok that meets the accuracy bound), never a panic/NaN, call counts bounded by the iteration cap. Non-trivial = non-affine system of dimension >= 2, special start, far root, tol <= 1e-8, polynomial degree >= 2, every Steffensen case. Distinct = distinct case JSON.".into();
+    spec.rule = "generated: (a) systems F(x)=A(x-r)+eta*N(x-r) of dimension 1-4, A strictly diagonally dominant (|diag| in [1,3], |offdiag| <= 0.25) or diag(|a_kk|) times a product of plane rotations by arbitrary angles (well conditioned, far from symmetric), times 10^[-1,1]; one case in seven a complex-valued system of dimension 1-2 (complex entries, roots and starts, same holomorphic non-linearity); N_i(d)=sin(d_{i+1})d_i+d_{i+2}^2, eta capped so that beta*gamma*|delta|<=0.1, roots in [-3,3]^S, at the origin, or far (|r_i|<=100), starts r+delta (|delta_i|<=0.3), exactly r, or the origin (affine), tol 10^[-10,-3], FD width 10^[-4,-1], n_max=100 or exhaustion caps 0..2, singular class with duplicate integer rows; Newton and secant. (b) polynomials of degree 1-8 expanded from separated roots (grid construction, separation >= 0.3, |z|<=3), Newton starts within 0.8 d/(2n-1) of a chosen root in real and complex arithmetic, Muller triples within 0.1 d (must converge) or 1.5 (may fail), incl. vertical triples. all coefficients optionally multiplied by 10^[-8,4] (roots unchanged). (c) Steffensen on six contractions r and their under-relaxations k x+(1-k) r(x), k in [0,0.97] (same fixed point, slope up to ~0.98), with tolerances 10^[-14,-3]. Oracle: Ok within 2 tol + rounding floor of the root (nearest root for Muller; |g(x)-x| <= 10 tol and distance to the fixed point <= 3 tol + 64 eps|x|/(1-slope)^2 for Steffensen; relaxed maps get tol >= 1e3 eps|x|/(1-slope)^2), Err on singular/exhausted input (or an Ok that meets the accuracy bound), never a panic/NaN, call counts bounded by the iteration cap. Non-trivial = non-affine system of dimension >= 2, special start, far root, tol <= 1e-8, polynomial degree >= 2, every Steffensen case. Distinct = distinct case JSON.".into();
     spec.max_shrink_iters = 3000;
     run_spec(spec, opts)
 }
